@@ -8,6 +8,7 @@ from . import engine_a
 from . import facts
 from . import plan
 from . import rules_a
+from . import engine_fp
 
 FLOORS_PATH = os.path.join(C.TABLES, "floors.json")
 
@@ -59,6 +60,8 @@ def run(report, tier, parts, select, label, cfg="on", floors_key=None):
                 m["sym"], e["crate"], sorted(CONTROLS[m["sym"]]), sorted(kinds)))
         nctl += 1
     stats = collections.Counter()
+    mir = None
+    fp_cache = {}
     positions = collections.defaultdict(set)
     pos_example = {}
     layouts = set()
@@ -99,6 +102,27 @@ def run(report, tier, parts, select, label, cfg="on", floors_key=None):
             if v == "triaged":
                 positions[key].add(st["pos"])
                 pos_example.setdefault((key, st["pos"]), (sym, st["chain"]))
+                # the entry was argued for particular constructs: compare their fingerprints
+                allowed = triage[key].get("fingerprints")
+                ck = (key, st["pos"])
+                if allowed is not None and ck not in fp_cache:
+                    if mir is None:
+                        mir = engine_fp.Mir()
+                    fp_cache[ck] = mir.fingerprints(st["pos"], st["kind"], st.get("msg"), st.get("via") or [])
+                    if fp_cache[ck]:
+                        stats["fp_located"] += 1
+                        bad = [f for f in fp_cache[ck] if f not in allowed]
+                        if bad:
+                            k = "A|" + key + "|construct changed"
+                            viol_roots[k].append(sym)
+                            viol_detail.setdefault(k, {
+                                "what": "the construct at this allow-listed site is not one the table entry was argued "
+                                        "for: `%s` (recorded: %s); the infeasibility argument must be made again" % (
+                                            bad[0][:160], "; ".join(a[:80] for a in allowed[:4])),
+                                "example_root": sym, "fingerprint": bad, "recorded": allowed,
+                                "path": st["chain"] + " <- " + sym})
+                    else:
+                        stats["fp_unlocated"] += 1
             elif v == "violation":
                 k = "A|" + key
                 viol_roots[k].append(sym)
@@ -123,6 +147,9 @@ def run(report, tier, parts, select, label, cfg="on", floors_key=None):
         d["roots"] = len(roots)
         d["some_roots"] = sorted(set(roots))[:8]
         report.violation("A:" + label, k, d["what"], d)
+    if stats["fp_located"] + stats["fp_unlocated"] >= 10 and stats["fp_located"] < 0.75 * (stats["fp_located"] + stats["fp_unlocated"]):
+        raise EngineError("only %d of %d allow-listed constructs could be located in MIR: the fingerprint rule would "
+                          "pass vacuously" % (stats["fp_located"], stats["fp_located"] + stats["fp_unlocated"]))
     # -- floors: fail closed when the enumeration shrinks -------------------------------
     floors = C.load_json(FLOORS_PATH, default={})
     fk = floors_key or label
@@ -144,6 +171,7 @@ def run(report, tier, parts, select, label, cfg="on", floors_key=None):
         "residual_sites": stats["sites"], "permitted_by_class": stats["permitted"],
         "triaged_infeasible": stats["triaged"], "violating_sites": stats["violation"],
         "distinct_table_keys_hit": len(positions), "controls_passed": nctl,
+        "allow_listed_constructs_fingerprinted": stats["fp_located"], "allow_listed_constructs_not_located": stats["fp_unlocated"],
         "crates": len(crates), "unanalysed": unanalysed[:20], "unanalysed_count": len(unanalysed),
         "library_callees": dict(lib_seen), "roots_with_indirect_calls": stats["roots_with_indirect_calls"],
         "samples": samples, "floor": want,
